@@ -25,5 +25,6 @@ BIN=$(IMB_LIBDIR="$LIBDIR" "$V/tools/build_sim.sh") || { echo "MUTANT: sim link 
 for id in "${ids[@]}"; do
   out=$("$BIN" check "$id" "${extra[@]}" 2>&1); rc=$?
   nv=$(echo "$out" | grep -c "^VIOLATION")
+  [ -n "${MUTANT_VERBOSE:-}" ] && echo "$out" | grep -A1 "^VIOLATION" | grep -o "key=[^ ]*" | sort | uniq -c
   echo "MUTANT-RESULT check=$id exit=$rc violations=$nv :: $(echo "$out" | grep -A2 '^VIOLATION' | head -3 | tr '\n' ' ' | cut -c1-300)"
 done
